@@ -1351,6 +1351,13 @@ impl ServerSession {
     }
 
     fn get_epoch(&self) -> RtmpTimestamp {
+        #[cfg(rml_verif)]
+        {
+            if let Some(milliseconds) = ::sessions::verif_elapsed_ms() {
+                return RtmpTimestamp::new(milliseconds as u32);
+            }
+        }
+
         match self.start_time.elapsed() {
             Ok(duration) => {
                 let milliseconds =
